@@ -190,4 +190,13 @@ def pruneV : Val → Ty → Option Val
     | _, _ => none
   | _, _ => none
 
+/-- the witness bits of node `j` after pruning: decode the original bits at the original target
+type, prune the value to the new target type, encode compactly (what the `Finalizer` of `prune`
+does for every witness node it keeps) -/
+def pruneWit (wit : Nat → Option (List Bool)) (arr a1 : Array (Ty × Ty)) (j : Nat) : Option (List Bool) := do
+  let bits ← wit j
+  let v ← valOfCompact (arr.getD j (.one, .one)).2 bits
+  let w ← pruneV v (a1.getD j (.one, .one)).2
+  pure (compact w)
+
 end Prog
